@@ -2018,6 +2018,8 @@ class latest(Stream):
         self._condition = None
         self.next = []
         self.next_metadata = None
+        self._dirty = False  # an element arrived that has not been picked up yet
+        self._delivering = False  # the most recent element is being delivered
 
         kwargs["ensure_io_loop"] = True
         Stream.__init__(self, upstream, **kwargs)
@@ -2031,20 +2033,33 @@ class latest(Stream):
         return self._condition
 
     def update(self, x, who=None, metadata=None):
-        if self.next_metadata:
+        if self.next_metadata and not self._delivering:
+            # the element being replaced is not in use; one that is still
+            # being delivered is released by cb once delivery has finished
             self._release_refs(self.next_metadata)
         self._retain_refs(metadata)
 
         self.next = [x]
         self.next_metadata = metadata
+        self._delivering = False
+        self._dirty = True
         self.loop.add_callback(self.condition.notify)
 
     @gen.coroutine
     def cb(self):
         while True:
-            yield self.condition.wait()
+            while not self._dirty:
+                yield self.condition.wait()
+            self._dirty = False
             [x] = self.next
-            yield self._emit(x, self.next_metadata)
+            metadata = self.next_metadata
+            self._delivering = True
+            yield self._emit(x, metadata)
+            if self._delivering:
+                self._delivering = False
+            elif metadata:
+                # replaced while it was being delivered
+                self._release_refs(metadata)
 
 
 def sync(loop, func, *args, **kwargs):
